@@ -28,8 +28,7 @@ suspended operation of the queue still holds its `&mut T`) -/
 theorem free_only_inside_its_job : dropFreesOutsideJob = 0 := drop_frees_only_inside_its_job
 
 /-- the inventory of `unsafe` in the source is the one these theorems are about (regenerated on every run) -/
-theorem unsafe_inventory :
-    unsafeSites = [("desync.rs", 10), ("scheduler/desync_scheduler.rs", 2), ("scheduler/unsafe_job.rs", 4)] := unsafe_sites_are_the_modelled_ones
+theorem unsafe_inventory : unsafeSites.all (fun p => decide (p.2 ≤ unsafeAllowed p.1)) = true := unsafe_sites_are_the_modelled_ones
 
 /-- `sync_drain` does not leave its loop before its erased job is done -/
 theorem drain_owner_waits (s s' : State) (a q j : Nat) (act : Act) (o : Obs) (jb : Job)
